@@ -24,20 +24,29 @@
   token must hold valid JSON (`Json.decode` succeeds); every other side
   condition is on token types only.
 
-  `lenient = true` adds ONE production that is not in the ABNF:
-      expression "[" expression *( "," expression ) "]"
-  (a multi-select list directly after an expression, e.g. `a[*][b, c]`).  The
-  parser in /repo accepts it after projections (finding D24); the soundness
-  theorem `Props.C04_accepted_is_grammatical` is stated for `G true`, and
-  `G false` is the published grammar.
+  `G false` is the published grammar.  `G true` is the language Compile ACCEPTS; it differs in two
+  marked places, both recorded findings:
+
+  * (D24) one more production,
+        open-projection "[" expression *( "," expression ) "]"
+    where an open-projection is an expression that ENDS in a projection with nothing after it
+    yet — `e[*]`, `e[]`, `e[a:b:c]`, `e[?c]` (with or without `e`), `e.*`, `*` — e.g. `a[*][b, c]`:
+    the parser reads the list as the projection's right-hand side;
+  * (D22) the numbers inside `[n]` and slices must be in the int64 range (`NumOK`: the parser
+    converts them with `strconv.Atoi`); the published grammar has no bound.
+
+  Soundness and completeness are both proved for `G true`
+  (`Props.C04_accepts_iff`), and `G false` with in-range numbers is contained in it
+  (`Props.C04_grammatical_is_accepted`).
 -/
 import Jmes.Ast
 import Jmes.Json
+import Jmes.Parser
 namespace Jmes.Spec
 open Jmes
 
 inductive Cat where
-  | expr | dotRhs | bracket | msList | msHash | call | elems | kvs | args | arg
+  | expr | dotRhs | bracket | msList | msHash | call | elems | kvs | args | arg | openExpr
   deriving DecidableEq
 
 def isIdent (t : Token) : Prop := t.ty = .uident ∨ t.ty = .qident
@@ -51,6 +60,31 @@ def OptNum (l : List Token) : Prop := l = [] ∨ ∃ n, l = [n] ∧ n.ty = .numb
 def SliceG (s : List Token) : Prop :=
   ∃ a c1 b, OptNum a ∧ c1.ty = .colon ∧ OptNum b ∧
     (s = a ++ c1 :: b ∨ ∃ c2 c, c2.ty = .colon ∧ OptNum c ∧ s = a ++ c1 :: (b ++ c2 :: c))
+
+/-- every number token is in the int64 range (`strconv.Atoi` in the parser; finding D22) -/
+def NumOK (s : List Token) : Prop := ∀ t ∈ s, t.ty = .number → (Parser.atoi t.value).isSome
+
+theorem NumOK.left {a b : List Token} (h : NumOK (a ++ b)) : NumOK a := fun t ht => h t (List.mem_append_left _ ht)
+theorem NumOK.right {a b : List Token} (h : NumOK (a ++ b)) : NumOK b := fun t ht => h t (List.mem_append_right _ ht)
+theorem NumOK.tail {a : Token} {b : List Token} (h : NumOK (a :: b)) : NumOK b := fun t ht => h t (List.mem_cons_of_mem _ ht)
+theorem NumOK.head {a : Token} {b : List Token} (h : NumOK (a :: b)) (hn : a.ty = .number) : (Parser.atoi a.value).isSome :=
+  h a (List.mem_cons_self ..) hn
+theorem NumOK.nil : NumOK [] := fun _ h => by cases h
+theorem NumOK.cons {a : Token} {b : List Token} (ha : a.ty = .number → (Parser.atoi a.value).isSome) (hb : NumOK b) : NumOK (a :: b) := by
+  intro t ht hn
+  rcases List.mem_cons.mp ht with rfl | h
+  · exact ha hn
+  · exact hb t h hn
+theorem NumOK.cons_ne {a : Token} {b : List Token} (ha : a.ty ≠ .number) (hb : NumOK b) : NumOK (a :: b) :=
+  NumOK.cons (fun h => absurd h ha) hb
+theorem NumOK.append {a b : List Token} (ha : NumOK a) (hb : NumOK b) : NumOK (a ++ b) := by
+  intro t ht hn
+  rcases List.mem_append.mp ht with h | h
+  · exact ha t h hn
+  · exact hb t h hn
+
+/-- a bracket specifier other than `[number]`: it starts a projection -/
+def ProjBr (b : List Token) : Prop := ∀ l n r, b = [l, n, r] → n.ty ≠ .number
 
 variable (N : Type) [NumOps N]
 
@@ -70,7 +104,13 @@ inductive G (lenient : Bool) : Cat → List Token → Prop
   | list {b} : G lenient .msList b → G lenient .expr b
   | hash {b} : G lenient .msHash b → G lenient .expr b
   | fn {b} : G lenient .call b → G lenient .expr b
-  | lenientList {a b} : lenient = true → G lenient .expr a → G lenient .msList b → G lenient .expr (a ++ b)
+  | lenientList {a b} : lenient = true → G lenient .openExpr a → G lenient .msList b → G lenient .expr (a ++ b)
+  -- an expression whose last construct is a projection with nothing after it yet: `e[*]`, `e[]`,
+  -- `e[a:b]`, `e[?c]`, the same without `e`, `e.*`, `*`  (only the lenient production consumes it)
+  | openIdx {a b} : G lenient .expr a → G lenient .bracket b → ProjBr b → G lenient .openExpr (a ++ b)
+  | openIdx0 {b} : G lenient .bracket b → ProjBr b → G lenient .openExpr b
+  | openDotStar {a d s} : G lenient .expr a → d.ty = .dot → s.ty = .star → G lenient .openExpr (a ++ [d, s])
+  | openStar {s} : s.ty = .star → G lenient .openExpr [s]
   -- the right-hand side of a dot
   | dotIdent {t} : isIdent t → G lenient .dotRhs [t]
   | dotStar {t} : t.ty = .star → G lenient .dotRhs [t]
@@ -78,9 +118,11 @@ inductive G (lenient : Bool) : Cat → List Token → Prop
   | dotHash {b} : G lenient .msHash b → G lenient .dotRhs b
   | dotFn {b} : G lenient .call b → G lenient .dotRhs b
   -- bracket-specifier
-  | brNumber {l n r} : l.ty = .lbracket → n.ty = .number → r.ty = .rbracket → G lenient .bracket [l, n, r]
+  | brNumber {l n r} : l.ty = .lbracket → n.ty = .number → r.ty = .rbracket → (lenient = true → NumOK [n]) →
+      G lenient .bracket [l, n, r]
   | brStar {l s r} : l.ty = .lbracket → s.ty = .star → r.ty = .rbracket → G lenient .bracket [l, s, r]
-  | brSlice {l s r} : l.ty = .lbracket → SliceG s → r.ty = .rbracket → G lenient .bracket (l :: s ++ [r])
+  | brSlice {l s r} : l.ty = .lbracket → SliceG s → r.ty = .rbracket → (lenient = true → NumOK s) →
+      G lenient .bracket (l :: s ++ [r])
   | brFlatten {t} : t.ty = .flatten → G lenient .bracket [t]
   | brFilter {l e r} : l.ty = .filter → G lenient .expr e → r.ty = .rbracket → G lenient .bracket (l :: e ++ [r])
   -- multi-select list / hash, function call
